@@ -520,9 +520,27 @@ struct Dev final : IDev {
         return uint64_t(static_cast<N>(b));
     }
 
+    // The word operand is handed over as one of the object's own words whenever one of them has that value (operands are often drawn
+    // from the current value): a word taken by reference would change under the operation that reads it.
+    static const T &own_word_or(const B &b, const T &w, bool &own) {
+        const T *st = b.Storage();
+        for (SizeT32 i = b.Index() + 1U; i != 0; --i) {
+            if (st[i - 1U] == w) {
+                own = true;
+                return st[i - 1U];
+            }
+        }
+        return w;
+    }
+
     void apply(const Op &o, Ret &ret) override {
         B      &b = *r[o.reg];
-        const T wv = T(o.n);
+        const T wv_ = T(o.n);
+        bool    own = false;
+        const T &wv = own_word_or(b, wv_, own);
+        if (own && (o.k == K::Mul || o.k == K::Div || o.k == K::DivAssign || o.k == K::AddAt || o.k == K::SubAt)) {
+            pbt::global_ctx()->label("operand-is-own-word");
+        }
         switch (o.k) {
             case K::Ctor:
             case K::Assign:
